@@ -95,6 +95,18 @@ Fixpoint m_at (cur : mnode) (cs : list string) : option mnode :=
       end
   end.
 
+(* all directories of the tree, as name lists from the top (the tree itself first) *)
+Fixpoint m_dirs (n : mnode) : list (list string) :=
+  match n with
+  | MFile _ => []
+  | MDir es =>
+      [] :: (fix go (l : list (string * mnode)) : list (list string) :=
+               match l with
+               | [] => []
+               | (k, x) :: t => (map (cons k) (m_dirs x) ++ go t)%list
+               end) es
+  end.
+
 (* every entry name is a legal name (recursively) *)
 Fixpoint wf_mnode (n : mnode) : bool :=
   match n with
